@@ -2,5 +2,5 @@
 # dev helper: verify every function under contract, print only problems
 cd /verif
 export GOVC_LIB=/verif/lib
-keys=$(./bin/govc list -repo ${REPO:-/repo} | awk '$4=="inline=false" && $5=="trusted=false" && $6=="lib=false" {print $1}')
+keys=$(./bin/govc list -repo ${REPO:-/repo} | grep "inline=false trusted=false lib=false" | awk '{print $1}')
 ./bin/govc func -repo ${REPO:-/repo} -timeout ${TO:-10} $keys 2>&1 | grep -v "^ok" | cut -c1-260
